@@ -1137,36 +1137,59 @@ theorem rms_norm_fusion_sound {α : Type} [Field α] (sqrtf : α → α) (scaleF
 /-- What the checks establish when they pass: layer-norm only for FLOAT/DOUBLE inputs with a one-element epsilon and
 `stash_type = x.dtype`; rms-norm only for float inputs/scales, a float one-element epsilon and a FLOAT/DOUBLE stash type. -/
 theorem norm_fusion_check (p : NormFusion) (r : NormRepl) (h : p.run = .fire r) :
+    p.rankOk = true ∧
     (p.kind = .layerNorm → p.epsSingleton = true ∧ r.stashType = p.xDtype ∧ dtypeIn layerNormComputeTypes p.xDtype = true) ∧
     (p.kind = .rmsNorm → p.epsSingleton = true ∧ p.epsIsFloat = true ∧ r.stashType = p.rmsStash ∧
       dtypeIn layerNormComputeTypes r.stashType = true ∧ dtypeIn floatTypes p.xDtype = true ∧ dtypeIn floatTypes p.scaleDtype = true) := by
   unfold NormFusion.run at h
-  constructor
-  · intro hk
-    simp only [hk] at h
-    by_cases hc : p.lnOk = true
-    · simp only [hc, if_true, Outcome.fire.injEq] at h
-      unfold NormFusion.lnOk at hc
-      simp only [Bool.and_eq_true] at hc
-      subst h
-      exact ⟨hc.2, rfl, hc.1⟩
-    · simp [hc] at h
-  · intro hk
-    simp only [hk] at h
-    by_cases hc : p.rmsOk = true
-    · simp only [hc, if_true, Outcome.fire.injEq] at h
-      unfold NormFusion.rmsOk at hc
-      simp only [Bool.and_eq_true] at hc
-      subst h
-      exact ⟨hc.1.1.1.1, hc.1.1.1.2, rfl, hc.2, hc.1.1.2, hc.1.2⟩
-    · simp [hc] at h
+  by_cases hr : p.rankOk = true
+  · simp only [hr, if_true] at h
+    unfold NormFusion.runPrefix at h
+    refine ⟨hr, ?_, ?_⟩
+    · intro hk
+      simp only [hk] at h
+      by_cases hc : p.lnOk = true
+      · simp only [hc, if_true, Outcome.fire.injEq] at h
+        unfold NormFusion.lnOk at hc
+        simp only [Bool.and_eq_true] at hc
+        subst h
+        exact ⟨hc.2, rfl, hc.1⟩
+      · simp [hc] at h
+    · intro hk
+      simp only [hk] at h
+      by_cases hc : p.rmsOk = true
+      · simp only [hc, if_true, Outcome.fire.injEq] at h
+        unfold NormFusion.rmsOk at hc
+        simp only [Bool.and_eq_true] at hc
+        subst h
+        exact ⟨hc.1.1.1.1, hc.1.1.1.2, rfl, hc.2, hc.1.1.2, hc.1.2⟩
+      · simp [hc] at h
+  · simp [hr] at h
 
-/-- Finding C05-N11: the checks do not look at the rank of scale / bias: with `x : [2,4]` and `scale : [3,2,4]` the rule
-fires although the original result has shape `[3,2,4]`, which no `LayerNormalization(x:[2,4], …)` produces. -/
-theorem norm_fusion_scale_rank_refuted :
-    (NormFusion.run { kind := .layerNorm, xDtype := some 1, xRank := 2, otherRank := 3 }) = .fire { stashType := some 1 } ∧
+/-- **Shapes** (after commit fd3c959): when a fusion fires, the scale / bias does not outrank `x`, so — for operands whose
+broadcast against `x` is `x`'s shape, which is what LayerNormalization / RMSNormalization require — the final `Mul` / `Add` of
+the pattern did not enlarge the result. -/
+theorem norm_fusion_rank_sound (p : NormFusion) (r : NormRepl) (h : p.run = .fire r) :
+    ∃ rx ro, p.xRank = some rx ∧ p.otherRank = some ro ∧ ro ≤ rx := by
+  have hr := (norm_fusion_check p r h).1
+  unfold NormFusion.rankOk at hr
+  cases hx : p.xRank with
+  | none => rw [hx] at hr; exact absurd hr (by simp)
+  | some rx =>
+    cases ho : p.otherRank with
+    | none => rw [hx, ho] at hr; exact absurd hr (by simp)
+    | some ro =>
+      rw [hx, ho] at hr
+      exact ⟨rx, ro, rfl, rfl, by simpa using hr⟩
+
+/-- Documentation of finding C05-N11 (fixed): the pre-fix rules did not look at the rank of scale / bias: with `x : [2,4]` and
+`scale : [3,2,4]` they fired although the original result has shape `[3,2,4]`; the rules now refuse. -/
+theorem norm_fusion_prefix_refuted :
+    (NormFusion.runPrefix { kind := .layerNorm, xDtype := some 1, xRank := some 2, otherRank := some 3 }) = .fire { stashType := some 1 } ∧
     specBroadcast [2, 4] [3, 2, 4] = some [3, 2, 4] ∧
-    (NormFusion.hyp { kind := .layerNorm, xDtype := some 1, xRank := 2, otherRank := 3 }) = false := by decide
+    (NormFusion.run { kind := .layerNorm, xDtype := some 1, xRank := some 2, otherRank := some 3 }) = .nofire ∧
+    (NormFusion.run { kind := .layerNorm, xDtype := some 1, xRank := some 2, otherRank := none }) = .nofire ∧
+    (NormFusion.run { kind := .layerNorm, xDtype := some 1, xRank := some 2, otherRank := some 1 }) = .fire { stashType := some 1 } := by decide
 
 end NormFusion
 
